@@ -195,15 +195,26 @@ def execute(case):
            "has_net": False, "net_nodes": [], "net_jd": [], "net_edges": [],
            "jds_out": [], "jds_ok": True, "jds_in_after": []}
 
-    def go():
+    def make():
         if via == "main":
             p = dict(params)
             p[GN.GCM_TYPE] = gen
-            alg = gcmpy.GCMAlgorithmMain.load_gcm_algorithm(p)
-        else:
-            cls = {"fast": gcmpy.GCMAlgorithmFast, "network": gcmpy.GCMAlgorithmNetwork,
-                   "motifs": gcmpy.GCMAlgorithmCustomMotifs}[gen]
-            alg = cls(params)
+            return gcmpy.GCMAlgorithmMain.load_gcm_algorithm(p)
+        cls = {"fast": gcmpy.GCMAlgorithmFast, "network": gcmpy.GCMAlgorithmNetwork,
+               "motifs": gcmpy.GCMAlgorithmCustomMotifs}[gen]
+        return cls(params)
+    holder = {}
+    if case.get("pre_jds"):
+        # history: the SAME generator object already produced a graph (for the same or another sequence) before the judged call
+        try:
+            holder["alg"] = make()
+            Oracle().run_seeded(case.get("pre_seed", 7), lambda: holder["alg"].random_clustered_graph([tuple(j) for j in case["pre_jds"]]))
+        except Exception:
+            holder.pop("alg", None)
+        del calls[:]
+
+    def go():
+        alg = holder.get("alg") or make()
         return alg.random_clustered_graph(jds_arg)
 
     orc = Oracle()
